@@ -340,6 +340,7 @@ static void observe_all(const char *where)
 static void free_end(struct endctx *c)
 {
 	if (c->freed) return;
+	if (in_loop) MC_COUNT("c19_free_inside_callback"); else MC_COUNT("c19_free_outside_callback");
 	c->freed = 1;
 	c->conserve_off = 1; peer_of(c)->conserve_off = 1;
 	struct bufferevent *b = c->bev;
@@ -452,6 +453,7 @@ static void writecb(struct bufferevent *bev, void *arg)
 			mc_fail(k, "end %d: write callback with %zu bytes in the output, low write mark %zu", c->id, ol, lim);
 		}
 	}
+	if (c->wcb_due) MC_COUNT("c18_writecb_due_satisfied");
 	c->wr_forgive = 0; c->wr_low_ceil = wl; c->wcb_due = 0;
 	mc_observe("[w%d:%zu]", c->id, ol);
 	if (c->policy == P_FREE_SELF_WR) free_end(c);
@@ -724,6 +726,7 @@ static void liveness_checks(void)
 		if (c->freed) continue;
 		if (c->resume_due) {
 			MC_COUNT("c18_resume_checked");
+			if (upstream_ready(c)) MC_COUNT("c18_resume_checked_with_upstream_data");
 			if (upstream_ready(c) && c->rd_total + in_len(c) == c->resume_arrived) {
 				KEY(k, "C18/read-not-resumed/%s", tname());
 				mc_fail(k, "end %d: drained below the high read mark, upstream has data, but nothing was read in two iterations", c->id);
